@@ -7,7 +7,7 @@
  *   N <workers>       worker threads 1..N (Thread objects are created up front); tid 0 is the main thread
  *   S <seed>          seed of the noise generators
  *   <tid> <op> …      one event
- * events: spawn U | join U | begin | end | new K | newroot K | del U K | gc K* | churn N | tset KEY U K | tget KEY |
+ * events: spawn U | join U | begin | end | new K | newroot K | newx K (destructor does try/throw/catch) | del U K | gc K* | churn N | tset KEY U K | tget KEY |
  *         tmem KEY | trem KEY | x <exception program> | lookup TY CLS | pub V | perr FN ERRNO | work KIND SEED N |
  *         lock M | unlock M | trylock M | enter M | leave M | winc M C | ld C | st C | rd U
  * Output: one `O <index> <tid> <op> <outcome>` per event, in file order (printed at the end).  In free mode the outcome
@@ -28,6 +28,9 @@
  *   c13-cache          type_instance through the shared cache differs from the declaration
  *   c13-errmap         pthread error code translated to another exception than documented
  *   c13-wrapper        a Cello lock/unlock/trylock/join did not map 1:1 onto the pthread primitive of that object
+ * A run that makes no progress for 15 s (deadlock) or exceeds 45 s prints where every thread is stuck and exits with
+ * status 142; a crash of any thread (e.g. a destructor running without the thread's exception record) kills the process:
+ * both are reported by the runner as a crash of the case.
  */
 #include "common.h"
 #include <pthread.h>
@@ -81,6 +84,14 @@ static void ProbeA_Del(var self) {
   }
   p->canary = 0xDEADDEADDEADDEADULL;
 }
+/* ProbeX: same layout; its destructor enters a try block, throws and catches (needs the thread's Exception record) */
+struct ProbeX { int owner; int k; uint64_t canary; };
+static void ProbeX_Del(var self) {
+  volatile int caught = 0;
+  try { throw(ValueError, "in the destructor of %i", $I(((struct ProbeX*)self)->k)); } catch (e in ValueError) { caught = 1; }
+  if (!caught) XX("sig=c13-exn-trace line=0 what=exception thrown in a destructor was not caught there");
+  ProbeA_Del(self);
+}
 static int ProbeB_Cmp(var a, var b) { return 0; }
 static uint64_t ProbeB_Hash(var a) { return 7; }
 static void ProbeB_New(var self, var args) {}
@@ -89,6 +100,7 @@ static size_t ProbeC_Len(var a) { return 3; }
 static void ProbeC_Assign(var a, var b) {}
 
 var ProbeA = Cello(ProbeA, Instance(New, NULL, ProbeA_Del));
+var ProbeX = Cello(ProbeX, Instance(New, NULL, ProbeX_Del));
 var ProbeB = Cello(ProbeB, Instance(New, ProbeB_New, NULL), Instance(Cmp, ProbeB_Cmp), Instance(Hash, ProbeB_Hash));
 var ProbeC = Cello(ProbeC, Instance(Cmp, ProbeC_Cmp), Instance(Len, ProbeC_Len), Instance(Assign, ProbeC_Assign));
 
@@ -101,9 +113,9 @@ static var probe_class(int i) {
 }
 
 /* ------------------------------------------------------------------------------------------- events */
-enum { OP_SPAWN, OP_JOIN, OP_BEGIN, OP_END, OP_NEW, OP_NEWROOT, OP_DEL, OP_GC, OP_CHURN, OP_TSET, OP_TGET, OP_TMEM, OP_TREM,
+enum { OP_SPAWN, OP_JOIN, OP_BEGIN, OP_END, OP_NEW, OP_NEWROOT, OP_NEWX, OP_DEL, OP_GC, OP_CHURN, OP_TSET, OP_TGET, OP_TMEM, OP_TREM,
        OP_X, OP_LOOKUP, OP_PUB, OP_PERR, OP_WORK, OP_LOCK, OP_UNLOCK, OP_TRYLOCK, OP_ENTER, OP_LEAVE, OP_WINC, OP_LD, OP_ST, OP_RD, OP_BAD };
-static const char* opname[] = { "spawn", "join", "begin", "end", "new", "newroot", "del", "gc", "churn", "tset", "tget", "tmem", "trem",
+static const char* opname[] = { "spawn", "join", "begin", "end", "new", "newroot", "newx", "del", "gc", "churn", "tset", "tget", "tmem", "trem",
        "x", "lookup", "pub", "perr", "work", "lock", "unlock", "trylock", "enter", "leave", "winc", "ld", "st", "rd", "bad" };
 static int is_sync(int op) { return op == OP_SPAWN || op == OP_JOIN || (op >= OP_LOCK && op <= OP_RD); }
 
@@ -467,10 +479,10 @@ static void exec_local(Evt* e, var* held) {
       if (th != thread_obj[me]) XX("sig=c13-tls-value line=%d what=current(Thread) in thread %d is not its Thread object", e->line, me);
       set_out(e, "begun depth=%zu gc=%d exc=%d", len(current(Exception)), (int)mem(th, $S("__GC")), (int)mem(th, $S("__Exception")));
       break; }
-    case OP_NEW: case OP_NEWROOT: {
+    case OP_NEW: case OP_NEWROOT: case OP_NEWX: {
       int k = (int)e->a;
       if (k < 0 || k >= MAXK || used[me][k]) { set_out(e, "bad"); break; }
-      struct ProbeA* p = e->op == OP_NEW ? new(ProbeA) : new_root(ProbeA);
+      struct ProbeA* p = e->op == OP_NEW ? new(ProbeA) : e->op == OP_NEWX ? new(ProbeX) : new_root(ProbeA);
       p->owner = me; p->k = k; p->canary = CANARY;
       held[k] = p; used[me][k] = 1; alive[me][k] = 1; isroot[me][k] = e->op == OP_NEWROOT; atomic_store(&objs[me][k], (var)p);
       set_out(e, "ok"); break; }
@@ -712,6 +724,19 @@ static void on_alarm(int sig) {
   _exit(142);
 }
 
+/* progress watchdog: no event completed for 15 s = deadlock */
+static atomic_long progress;
+static void* watchdog(void* arg) {
+  long last = -1; int quiet = 0;
+  for (;;) {
+    usleep(500000);
+    long p = atomic_load(&progress);
+    if (p != last) { last = p; quiet = 0; continue; }
+    if (++quiet >= 30) on_alarm(0);
+  }
+  return NULL;
+}
+
 /* the events of one thread */
 static void run_thread_events(int me, var* held) {
   if (free_mode) {
@@ -730,6 +755,7 @@ static void run_thread_events(int me, var* held) {
         return;
       }
       if (is_sync(e->op)) exec_sync_free(e); else exec_local(e, held);
+      atomic_fetch_add(&progress, 1);
     }
     cur_ev[me] = 0;
     return;
@@ -750,6 +776,7 @@ static void run_thread_events(int me, var* held) {
     }
     /* the event is executed while the baton mutex is held: exactly one event runs at a time */
     if (is_sync(e->op)) exec_sync_sched(e); else exec_local(e, held);
+    atomic_fetch_add(&progress, 1);
     advance_locked();
   }
   __real_pthread_mutex_unlock(&bm);
@@ -786,6 +813,7 @@ static int parse_event(char* line, Evt* e) {
   else if (!strcmp(op, "end") && na == 0 && e->tid != 0) e->op = OP_END;
   else if (!strcmp(op, "new") && na == 1 && LT(0, MAXK)) { e->op = OP_NEW; e->a = atol(a[0]); }
   else if (!strcmp(op, "newroot") && na == 1 && LT(0, MAXK)) { e->op = OP_NEWROOT; e->a = atol(a[0]); }
+  else if (!strcmp(op, "newx") && na == 1 && LT(0, MAXK)) { e->op = OP_NEWX; e->a = atol(a[0]); }
   else if (!strcmp(op, "del") && na == 2 && LT(0, MAXT) && LT(1, MAXK)) { e->op = OP_DEL; e->a = atol(a[0]); e->b = atol(a[1]); }
   else if (!strcmp(op, "gc")) { e->op = OP_GC; e->nks = na; e->ks = calloc(na + 1, sizeof(int)); for (int i = 0; i < na; i++) { if (!LT(i, MAXK)) FAIL; e->ks[i] = atoi(a[i]); } }
   else if (!strcmp(op, "churn") && na == 1 && LT(0, 5001)) { e->op = OP_CHURN; e->a = atol(a[0]); }
@@ -853,6 +881,8 @@ int main(int argc, char** argv) {
     }
     free_mode = fm; }
 
+  { pthread_t wd; pthread_create(&wd, NULL, watchdog, NULL); pthread_detach(wd); }
+
   /* infrastructure objects are raw: no collector manages them */
   pthread_key_create(&exit_key, on_thread_exit);
   worker_fn = $(Function, worker);
@@ -884,9 +914,6 @@ int main(int argc, char** argv) {
   /* end-of-run oracles */
   for (int c = 0; c < MAXC; c++) if (free_mode && counter[c] != atomic_load(&counter_expected[c]))
     XX("sig=c13-counter line=0 what=counter %d is %ld after %ld increments made inside sections", c, counter[c], atomic_load(&counter_expected[c]));
-  for (int m = 0; m < MAXM; m++) if (free_mode && insec[m] != 0) {
-    /* a section left open by the op file: release it so that the Mutex can be destroyed */
-  }
   check_alive(0, held, 0, "by the end of the run");
   for (int u = 1; u <= nworkers; u++) if (atomic_load(&phase[u]) == PH_DONE && end_idx[u] >= 0) check_teardown(u, 0);
 
